@@ -93,7 +93,7 @@ def typeof(s):
     if h in CMP or h in LOGIC:
         return 'l'
     if BASE.get(h, h) == 'pow':
-        return typeof(s[1])
+        return 'r' if 'r' in (typeof(s[1]), typeof(s[2])) else 'i'
     ts = {typeof(c) for c in s[1:]}
     return 'r' if 'r' in ts else 'i'
 
@@ -272,6 +272,54 @@ def count_heads(s, heads):
     return sum(1 for _, x in positions(s) if x[0] in heads)
 
 
+def minus_products(T, cfg=None):
+    """Flattened signed products Product((-1, x, y)) and Product((-1, x, y, z)) whose first child is the
+    Python constant -1 (what flatten/simplify and programmatic construction produce), plain and
+    Parenthesised form; the other children are leaves and at most one 1-operator plain binary tree
+    (Quotient / Sum / Product / Power / unary minus).  3 children: full alphabet; 4 children: 2 variables +
+    1 literal.  One representative per variable renaming."""
+    cfg = dict(DEFAULT_CFG, **(cfg or {}))
+    out = []
+    for nch, c in ((2, cfg), (3, dict(cfg, int_lits=cfg['int_lits'][-1:], real_lits=cfg['real_lits'][:1]))):
+        E = Enumerator(dict(c, canonical=False, forms=('plain',), arities=(2,)))
+        leaves, ones = E.trees(T, 0), E.trees(T, 1)
+        combos = list(itertools.product(leaves, repeat=nch))
+        for pos in range(nch):
+            for t in ones:
+                for rest in itertools.product(leaves, repeat=nch - 1):
+                    ch = list(rest)
+                    ch.insert(pos, t)
+                    combos.append(tuple(ch))
+        for ch in combos:
+            for head in ('mul', 'pmul'):
+                t = [head, ['c', -1]] + [x for x in ch]
+                if is_canonical(t):
+                    out.append(t)
+    return out
+
+
+SQRT_BASES = (['l', 'r', '4.0'], ['l', 'r', '9.0'], ['l', 'r', '0.25'], ['l', 'i', 4])
+HALF_EXPONENTS = ('0.5', '1.5', '2.5')
+
+
+def sqrt_powers(cfg=None):
+    """Powers of a perfect-square literal with a positive non-integral literal exponent k/2 (exactly
+    representable results: 4.0**0.5, 9.0**1.5, 0.25**2.5, 4**0.5 ...), alone and as one operand of a
+    plain binary Sum / Product / Quotient with a real leaf."""
+    cfg = dict(DEFAULT_CFG, **(cfg or {}))
+    out = []
+    pows = [['pow', b, ['l', 'r', e]] for b in SQRT_BASES for e in HALF_EXPONENTS]
+    out += pows
+    leaves = [['v', 'r', 0]] + [['l', 'r', v] for v in cfg['real_lits']]
+    for p in pows:
+        for op in ('add', 'mul', 'div'):
+            for lf in leaves:
+                out.append([op, p, lf])
+                out.append([op, lf, p])
+        out.append(['neg', p])
+    return out
+
+
 def enum_trees(T, n, cfg=None):
     return Enumerator(cfg).exactly(T, n)
 
@@ -448,7 +496,26 @@ class Guard:
             exprsem.c_div)
         chk = cls.chk
 
+        def _exact_sqrt(a):
+            a = Fraction(a)
+            if a < 0:
+                return None
+            import math
+            n, d = math.isqrt(a.numerator), math.isqrt(a.denominator)
+            if n * n == a.numerator and d * d == a.denominator:
+                return Fraction(n, d)
+            return None
+
         def g_pow(a, b):
+            # real exponent k/2 on a perfect square (any numeric base type: the result is REAL)
+            if isinstance(b, Fraction) and b.denominator == 2 and not isinstance(a, bool) \
+                    and isinstance(a, (int, Fraction)):
+                r = _exact_sqrt(a)
+                if r is None:
+                    raise exprsem.Unsupported('non-integral exponent on a base that is no perfect square')
+                if r == 0 and b < 0:
+                    raise exprsem.Undefined('0.0**negative')
+                return chk(Fraction(r) ** b.numerator)
             if isinstance(b, (int, Fraction)) and not isinstance(b, bool) and abs(b) > 64 \
                     and isinstance(a, (int, Fraction)) and abs(a) != 1 and a != 0:
                 if isinstance(a, int) and isinstance(b, int) and b < 0:
